@@ -726,17 +726,22 @@ def main():
         s = gen_sigs(repo)
         t = gen_tydesc(repo)
         zt = gen_zig_norm_tail(repo)
+        import flprog
+        fl, fl_report = flprog.gen_flprog(repo)
     except Exception as e:
         write_if_changed(os.path.join(outd, "Unparsed.v"), "(* rs2coq could not process the source: %s *)\nDefinition unparsed : bool := true.\n" % str(e).replace("*)", "* )"))
         print("rs2coq: UNPARSED:", e)
         return 3
-    for name, text in (("ZigTables.v", z), ("Consts.v", c), ("Sigs.v", s), ("TyDesc.v", t), ("ZigNormTail.v", zt)):
+    for name, text in (("ZigTables.v", z), ("Consts.v", c), ("Sigs.v", s), ("TyDesc.v", t), ("ZigNormTail.v", zt), ("FlProg.v", fl)):
         if write_if_changed(os.path.join(outd, name), text):
             changed.append(name)
     up = os.path.join(outd, "Unparsed.v")
     if os.path.exists(up):
         os.unlink(up)
     print("rs2coq: %d functions; rewritten: %s" % (len(index), ", ".join(changed) or "nothing"))
+    bad = [r for r in fl_report if r[1] != "ok"]
+    if bad:
+        print("rs2coq: float sites not translated: %s" % "; ".join("%s (%s)" % r for r in bad))
     return 0
 
 
